@@ -35,6 +35,7 @@ class Task(object):
         self.yields = 0
         self.delay_left = 0
         self.priority = 0.0
+        self.in_sched = False
 
 
 class Sched(object):
@@ -61,6 +62,8 @@ class Sched(object):
         self.on_clock_jump = None    # optional callback(sched, task) evaluated before time advances (lost wake-up detector)
         self.pct_changes = sorted(self.rng.randrange(1, 400) for _ in range(pct_depth)) if policy == "pct" else []
         self.time = SimClock(self)
+        import collections
+        self.ring = collections.deque(maxlen=40)
 
     # ------------------------------------------------------------------ tasks
     def spawn(self, fn, *args, **kwargs):
@@ -82,6 +85,7 @@ class Sched(object):
                 t.exc = e
             finally:
                 _thread_task.pop(threading.get_ident(), None)
+                self.ring.append((threading.current_thread().name, "finish", t.name, t.state, self.steps, repr(t.exc)))
                 t.state = "DONE"
                 self._task_finished(t)
         t.thread = threading.Thread(target=body, daemon=True, name="rv-" + name)
@@ -95,6 +99,9 @@ class Sched(object):
     def run(self, watchdog=60.0):
         """start the first task and wait until all tasks are done or the run was aborted"""
         global _ACTIVE
+        import gc
+        gc_was = gc.isenabled()
+        gc.disable()            # finalizers of earlier runs' objects must not fire at arbitrary points of this run
         _ACTIVE = self
         try:
             first = self._choose([t for t in self.tasks if t.state == "READY"], None)
@@ -103,11 +110,17 @@ class Sched(object):
             first.sem.release()
             ok = self.done.wait(watchdog)
             if not ok:
+                import faulthandler
+                sys.stderr.write("rv.vsched: wall-clock watchdog (%ss); tasks: %r current=%r\n" % (
+                    watchdog, [(t.name, t.state, t.tag, t.thread.is_alive(), getattr(t, "dbg", None)) for t in self.tasks], self.current and self.current.name))
+                faulthandler.dump_traceback(file=sys.stderr)
                 self.abort("wall-clock watchdog")
                 self.done.wait(5)
             return ok
         finally:
             _ACTIVE = None
+            if gc_was:
+                gc.enable()
 
     def _task_finished(self, t):
         if all(x.state == "DONE" for x in self.tasks):
@@ -204,6 +217,10 @@ class Sched(object):
             # loop: t is now runnable
 
     def _resume(self, t):
+        self.ring.append((threading.current_thread().name, "resume", t.name, t.state, self.steps))
+        if t.state == "DONE":
+            sys.stderr.write("rv.vsched BUG: resuming a DONE task %s\n%s\n" % (t.name, "\n".join(map(repr, self.ring))))
+        t.dbg = ("resumed-by", threading.current_thread().name, self.steps)
         self.current = t
         if t.state == "BLOCKED":
             pass
@@ -216,7 +233,9 @@ class Sched(object):
         if len(self.trace) < 4000:
             self.trace.append((nxt.index, tag if isinstance(tag, str) else tag[0] if tag else None))
         self._resume(nxt)
+        self.ring.append((threading.current_thread().name, "park", cur.name, cur.state, self.steps))
         cur.sem.acquire()
+        self.ring.append((threading.current_thread().name, "woke", cur.name, cur.state, self.steps))
         if self.aborting:
             raise SchedAbort()
 
@@ -238,18 +257,22 @@ class Sched(object):
             return
         if self.aborting:
             raise SchedAbort()
-        if cur is not self.current:
-            return
-        self._account(cur, tag)
-        cur.state = "READY"
-        nxt = self._pick(cur, cur_can_run=True)
-        if nxt is None:
-            raise SchedAbort()
-        if nxt is cur:
-            cur.state = "RUNNING"
-            return
-        self.preemptions += 1
-        self._switch(cur, nxt, tag)
+        if cur is not self.current or cur.in_sched:
+            return          # (in_sched: re-entered from a finalizer that the collector ran inside the scheduler itself)
+        cur.in_sched = True
+        try:
+            self._account(cur, tag)
+            cur.state = "READY"
+            nxt = self._pick(cur, cur_can_run=True)
+            if nxt is None:
+                raise SchedAbort()
+            if nxt is cur:
+                cur.state = "RUNNING"
+                return
+            self.preemptions += 1
+            self._switch(cur, nxt, tag)
+        finally:
+            cur.in_sched = False
 
     def block(self, pred, timeout=None, tag=None):
         """park the current task until pred() holds or `timeout` virtual seconds passed; returns pred-driven wake?"""
@@ -258,22 +281,29 @@ class Sched(object):
             raise RuntimeError("Sched.block() called outside a scheduled task (%r)" % (tag,))
         if self.aborting:
             raise SchedAbort()
-        self._account(cur, tag)
-        cur.state = "BLOCKED"
-        cur.pred = pred
-        cur.tag = tag
-        cur.woke_by_pred = True
-        cur.deadline = None if timeout is None else self.now + max(0.0, timeout)
-        nxt = self._pick(cur, cur_can_run=False)
-        if nxt is None:
-            raise SchedAbort()
-        if nxt is cur:
-            cur.state = "RUNNING"
+        if cur.in_sched or cur is not self.current:
+            # a blocking operation started by a finalizer inside the scheduler cannot be served: treat as not satisfied
+            return bool(pred())
+        cur.in_sched = True
+        try:
+            self._account(cur, tag)
+            cur.state = "BLOCKED"
+            cur.pred = pred
+            cur.tag = tag
+            cur.woke_by_pred = True
+            cur.deadline = None if timeout is None else self.now + max(0.0, timeout)
+            nxt = self._pick(cur, cur_can_run=False)
+            if nxt is None:
+                raise SchedAbort()
+            if nxt is cur:
+                cur.state = "RUNNING"
+                cur.pred = None
+                return cur.woke_by_pred
+            self._switch(cur, nxt, tag)
             cur.pred = None
             return cur.woke_by_pred
-        self._switch(cur, nxt, tag)
-        cur.pred = None
-        return cur.woke_by_pred
+        finally:
+            cur.in_sched = False
 
     # ------------------------------------------------------------------ helpers for checks
     def trace_hash(self):
